@@ -1121,6 +1121,41 @@ Section Passes.
     Ok (eattr a_id s, euid s, map snd (sort_pos nodes)))).
 End Passes.
 
+(* ------------------------------------------------------------------ asset *)
+
+Definition text_of (o : option et) : option (list tok) := match o with Some n => etext n | None => None end.
+
+(* Asset.load.  Dates and the unit's meter are kept as the text / attribute of the file (opaque: the harness
+   checks with its own parse that pycollada's datetime / float is that instant / number); the up axis is
+   X_UP, Y_UP or Z_UP, anything else (or no element) is read as Y_UP *)
+Definition up_axis_of (o : option et) : atom :=
+  match text_of o with
+  | Some [TWord a] => if N.eqb a a_X_UP || N.eqb a a_Y_UP || N.eqb a a_Z_UP then a else a_Y_UP
+  | _ => a_Y_UP
+  end.
+Definition load_contributor (c : et) : V :=
+  Vl (map (fun t => Vtext (text_of (efind t c))) [a_author; a_authoring_tool; a_comments; a_copyright; a_source_data]).
+Definition load_asset (root : et) : V :=
+  match efind a_asset root with
+  | None => Vnone                         (* Asset(): nothing of the file *)
+  | Some a =>
+      let unit := match efind a_unit a with
+                  | Some u => match eattr a_meter u with
+                              | Some m => Vl [Voaval (eattr a_name u); Vaval m]
+                              | None => Vnone
+                              end
+                  | None => Vnone
+                  end in
+      Vl [Vn (euid a); Vtext (text_of (efind a_title a)); Vtext (text_of (efind a_subject a));
+          Vtext (text_of (efind a_revision a)); Vtext (text_of (efind a_keywords a)); unit;
+          Vn (up_axis_of (efind a_up_axis a)); Vtext (text_of (efind a_created a)); Vtext (text_of (efind a_modified a));
+          Vl (map load_contributor (efindall a_contributor a))]
+  end.
+(* SPEC of the one normalisation here: the up axis defaults to Y_UP *)
+Definition spec_up_axis (t : option (list tok)) : atom :=
+  if opt_eqb (list_eqb tok_eqb) t (Some [TWord a_X_UP]) then a_X_UP
+  else if opt_eqb (list_eqb tok_eqb) t (Some [TWord a_Z_UP]) then a_Z_UP else a_Y_UP.
+
 (* ------------------------------------------------------------------ controllers, animations *)
 
 Definition dict_sources (srcs : list source_view) : outcome (list (atom * source_view)) :=
@@ -1177,11 +1212,11 @@ Definition geometry_elems (root : et) : list et :=
   List.filter (fun g => match efind a_mesh g with Some _ => true | None => false end)
               (lib_elems a_library_geometries a_geometry root).
 
-Record doc := mkDoc { d_images : list V; d_effects : list V; d_materials : list V; d_animations : list V; d_geometries : list V;
+Record doc := mkDoc { d_asset : V; d_images : list V; d_effects : list V; d_materials : list V; d_animations : list V; d_geometries : list V;
                       d_controllers : list V; d_lights : list V; d_cameras : list V; d_nodes : list V;
                       d_scenes : list V; d_scene : option N }.
 Definition Vdoc (d : doc) : V :=
-  Vl [Vl (d_images d); Vl (d_effects d); Vl (d_materials d); Vl (d_animations d); Vl (d_geometries d); Vl (d_controllers d);
+  Vl [d_asset d; Vl (d_images d); Vl (d_effects d); Vl (d_materials d); Vl (d_animations d); Vl (d_geometries d); Vl (d_controllers d);
       Vl (d_lights d); Vl (d_cameras d); Vl (d_nodes d); Vl (d_scenes d); Vopt Vn (d_scene d)].
 
 Fixpoint lib_nodes_all (nl : env -> et -> outcome nview) (en : env) (libs : list et) (acc : list nview)
@@ -1226,7 +1261,7 @@ Section Document.
            | None => Ok None
            | Some i => omap Some (resolve_url (map (fun s => (fst (fst s), snd (fst s))) scenes) (eattr a_url i))
            end) (fun sc =>
-    Ok (mkDoc (map snd imgs) (map snd effs)
+    Ok (mkDoc (load_asset root) (map snd imgs) (map snd effs)
               (map snd mats) anims (map Vgeom geoms) (map snd ctrls) lights cams
               (map Vnview (snd ln))
               (map (fun s => Vl [Vn (snd (fst s)); Voaval (fst (fst s)); Vl (map Vnview (snd s))]) scenes)
